@@ -16,7 +16,7 @@ MAX_EVENTS_PER_INSTANT = 5000
 
 TIMELESS = ("ReservablePriorityReqStore", "ReservableReqStore")
 STORE_CLASSES = ("ReservablePriorityReqStore", "ReservableReqStore", "ReservablePriorityReqFilterStore",
-                 "BufferStore", "FleetStore", "Buffer", "Fleet", "SlottedConveyor", "ContinuousConveyor")
+                 "BufferStore", "FleetStore", "Buffer", "Fleet", "SlottedConveyor", "ContinuousConveyor", "SlottedBeltStore")
 
 
 def _filters():
@@ -75,7 +75,7 @@ class Subject:
         self.cls = cls
         self.capacity = spec.get("capacity", 1)
         self.mode = spec.get("mode", "FIFO")
-        self.has_prio = cls in ("ReservablePriorityReqStore", "ReservablePriorityReqFilterStore", "FleetStore")
+        self.has_prio = cls in ("ReservablePriorityReqStore", "ReservablePriorityReqFilterStore", "FleetStore", "SlottedBeltStore")
         self.has_filter = cls == "ReservablePriorityReqFilterStore"
         self.timeless = cls in TIMELESS or (cls == "ReservablePriorityReqFilterStore")
         self.edge = None
@@ -98,6 +98,11 @@ class Subject:
             from factorysimpy.base.fleet_store import FleetStore
             self.store = FleetStore(env, capacity=self.capacity, delay=spec.get("delay", 1),
                                     transit_delay=spec.get("transit", 0))
+        elif cls == "SlottedBeltStore":
+            # the priority-capable store behind the slotted conveyor, driven directly (the edge passes no priorities)
+            from factorysimpy.base.slotted_belt_store import BeltStore
+            self.slot_delay = spec.get("delay", 1)
+            self.store = BeltStore(env, capacity=self.capacity, mode="FIFO", delay=self.slot_delay)
         elif cls in ("Buffer", "Fleet", "SlottedConveyor", "ContinuousConveyor"):
             from factorysimpy.nodes.node import Node
             if cls == "Buffer":
@@ -126,7 +131,7 @@ class Subject:
             self.edge.connect(a, b)
         else:
             raise HarnessError("unknown subject class %r" % cls)
-        self.is_belt = cls in ("SlottedConveyor", "ContinuousConveyor")
+        self.is_belt = cls in ("SlottedConveyor", "ContinuousConveyor", "SlottedBeltStore")
         self.is_fleet = cls in ("FleetStore", "Fleet")
         self.is_buffer = cls in ("BufferStore", "Buffer")
 
@@ -176,6 +181,9 @@ class Subject:
             return self.edge.put(ev, item)
         if self.cls == "BufferStore":
             return self.store.put(ev, (item, delay))
+        if self.cls == "SlottedBeltStore":
+            item.conveyor_entry_time = self.env.now        # what the conveyor edge does before handing the item over
+            return self.store.put(ev, (item, self.capacity * self.slot_delay))
         return self.store.put(ev, item)
 
     def get(self, ev):
